@@ -35,7 +35,8 @@ def collision_cases():
 
 
 def all_cases(ctx):
-    cs = F.f_unit(5) + F.f_shape() + collision_cases() + F.reordered(F.f_shape() + [c for c in F.f_unit(3) if c[0][0] == "pair"][:12])
+    from cgv.props.C03 import x_cases
+    cs = F.f_unit(5) + F.f_shape() + x_cases() + collision_cases() + F.reordered(F.f_shape() + [c for c in F.f_unit(3) if c[0][0] == "pair"][:12])
     cs += F.renamed([c for c in F.f_unit(3) if c[0][0] == "pair"][:12] + [c for c in F.f_unit(3, pairs=False)], "ternary")
     cs += F.f_rand(ctx.seed, 30 if ctx.quick else 300)
     if not ctx.quick:
@@ -51,8 +52,13 @@ def run(ctx):
     ctx.functions(tx.ternary)
     for cid, spec in ctx.cases(all_cases(ctx)):
         A = Net.from_spec(spec)
-        if wellformed(A) or not A.is_acyclic() or A.bbs or A.has_x():
+        if wellformed(A) or not A.is_acyclic() or A.bbs:
             ctx.rejected("family member outside the domain")
+            continue
+        if A.has_x():
+            # the function documents no support for constant x: it must reject it loudly (a silent encoding of x as a known value is a violation)
+            r_, e_ = call(tx.ternary, build(spec))
+            ctx.side("ternary-x-rejected", isinstance(e_, ValueError), "ternary:accepts-constant-x", f"ternary on a circuit with a constant x: expected ValueError, got {type(e_).__name__ if e_ else 'a result'}", {"case": cid, "circuit": spec})
             continue
         ctx.sample({"case": cid, "circuit": spec})
         det = {"case": cid, "circuit": spec if len(spec["nodes"]) < 25 else None}
